@@ -733,13 +733,40 @@ impl BitVector {
         let start_block = start / BITS_PER_BLOCK;
         let end_block = (end - 1) / BITS_PER_BLOCK;
 
-        // Process blocks using AVX2 (4 u64s at a time)
+        // Only bits start..end may change: the first and the last block of the range are
+        // combined under a mask, the whole blocks in between word-wise
+        let apply_masked = |this: &mut Self, block_idx: usize, mask: u64| {
+            if block_idx >= this.blocks.len() || block_idx >= other.blocks.len() {
+                return;
+            }
+            let a = this.blocks[block_idx];
+            let b = other.blocks[block_idx];
+            let combined = match op {
+                BitwiseOp::And => a & b,
+                BitwiseOp::Or => a | b,
+                BitwiseOp::Xor => a ^ b,
+            };
+            this.blocks[block_idx] = (a & !mask) | (combined & mask);
+        };
+
+        let low_mask = !0u64 << (start % BITS_PER_BLOCK); // bits >= start within the first block
+        let end_bits = end % BITS_PER_BLOCK;
+        let high_mask = if end_bits == 0 { !0u64 } else { (1u64 << end_bits) - 1 }; // bits < end within the last block
+
+        if start_block == end_block {
+            apply_masked(self, start_block, low_mask & high_mask);
+            return Ok(());
+        }
+
+        apply_masked(self, start_block, low_mask);
+
+        // Whole blocks strictly between the first and the last one
         let avx2_blocks = 4;
-        let mut block_idx = start_block;
+        let mut block_idx = start_block + 1;
 
         unsafe {
             // Process 4 blocks at a time with AVX2
-            while block_idx + avx2_blocks <= end_block + 1
+            while block_idx + avx2_blocks <= end_block
                 && block_idx + avx2_blocks <= self.blocks.len()
                 && block_idx + avx2_blocks <= other.blocks.len()
             {
@@ -761,18 +788,13 @@ impl BitVector {
             }
         }
 
-        // Handle remaining blocks with scalar operations
-        while block_idx <= end_block
-            && block_idx < self.blocks.len()
-            && block_idx < other.blocks.len()
-        {
-            match op {
-                BitwiseOp::And => self.blocks[block_idx] &= other.blocks[block_idx],
-                BitwiseOp::Or => self.blocks[block_idx] |= other.blocks[block_idx],
-                BitwiseOp::Xor => self.blocks[block_idx] ^= other.blocks[block_idx],
-            }
+        // Handle remaining whole blocks with scalar operations
+        while block_idx < end_block {
+            apply_masked(self, block_idx, !0u64);
             block_idx += 1;
         }
+
+        apply_masked(self, end_block, high_mask);
 
         Ok(())
     }
